@@ -12,6 +12,26 @@ import (
 // extractBroadcast reads the unexported fields of *propeller.broadcastUnit{unit *Unit; peers []peer.ID}
 // (the event a subprocessor emits when it forwards its shard). Read-only.
 func extractBroadcast(ev propeller.Event) (*propeller.Unit, int) {
+	u, n, _ := extractBroadcastPeers(ev)
+	return u, n
+}
+
+// extractBroadcastPeers additionally returns the recipients (peer ids as strings, in the shuffled
+// order of the event; reflect's String() on a string-kinded value returns its content).
+func extractBroadcastPeers(ev propeller.Event) (*propeller.Unit, int, []string) {
+	u, n := extractBroadcast0(ev)
+	if u == nil {
+		return nil, 0, nil
+	}
+	fp := reflect.ValueOf(ev).Elem().FieldByName("peers")
+	out := make([]string, fp.Len())
+	for i := range out {
+		out[i] = fp.Index(i).String()
+	}
+	return u, n, out
+}
+
+func extractBroadcast0(ev propeller.Event) (*propeller.Unit, int) {
 	v := reflect.ValueOf(ev)
 	if v.Kind() != reflect.Pointer || v.IsNil() {
 		return nil, 0
